@@ -16,6 +16,10 @@
    A case ((c0) (-2 k what)) is the table-full scenario, evaluated by the harness itself: 65535 calls
    outstanding (all numbers distinct and non-zero), one more call is refused and completed once with
    ResourceExhausted, after one answer the freed number is the one chosen; k = 0 iff all of it held.
+   A case ((2 ncallers per seed) (-3 k what)) is a concurrent run (callers on several goroutines, one
+   owner answering / sweeping / reaping), also evaluated by the harness: k = 0 iff every call was
+   completed exactly once, answered calls with their own reply, the others with RequestTimeout, and no
+   two outstanding requests ever carried the same or a zero sequence number.
    Two walks over the history:
    - the model ([step], choosing sequence numbers itself) against the observations  -> VMismatch
    - the property: the same operations, but every call takes the sequence number the
@@ -141,6 +145,11 @@ Fixpoint walk_prop (s : st) (swept : list Z) (ops : list hop) (os : list obs) : 
 
 Definition check (c : sx) : verdict :=
   match c with
+  | SList [SList [SInt 2; SInt _; SInt _; SInt _]; SList [SInt (-3); SInt k; _]] =>
+      (* concurrent callers, evaluated on the Go side: k = 0 ok, 9 inconclusive, else the sentence *)
+      if (k =? 0) || (k =? 9) then VOk
+      else if k =? 1 then VPropFail 1 else if k =? 2 then VPropFail 2 else if k =? 3 then VPropFail 3
+      else if k =? 5 then VPropFail 5 else VPropFail 7
   | SList [_; SList [SInt (-1)]] => VOk    (* inconclusive run: a blocking caller neither returned nor parked *)
   | SList [SList [SInt _]; SList [SInt (-2); SInt k; _]] =>
       (* all 65535 numbers outstanding: evaluated on the Go side (k = which check failed) *)
